@@ -2225,7 +2225,9 @@ func c19SessCodecs() []c19_sessCodec {
 			}
 			sc.callEnc, sc.callDec = call(cd.mod), call(cd.modDec)
 			sc.srcEnc = func(v string) string { return "base64." + cd.mod + "(" + v + ", " + strconv.FormatBool(cd.pad) + ")" }
-			sc.srcDec = func(v string) string { return "base64." + cd.modDec + "(" + v + ", " + strconv.FormatBool(cd.pad) + ")" }
+			sc.srcDec = func(v string) string {
+				return "base64." + cd.modDec + "(" + v + ", " + strconv.FormatBool(cd.pad) + ")"
+			}
 		}
 		out = append(out, sc)
 	}
